@@ -7,6 +7,7 @@ import (
 	"go/ast"
 	"go/token"
 	"go/types"
+	"os"
 	"regexp"
 	"sort"
 	"strings"
@@ -467,6 +468,24 @@ func checkGuardedRecursion(c *Ctx, r *Rec, info *types.Info, n *types.Named, ms 
 			limitHelper[name] = true
 		}
 	}
+	// a helper that calls a limit helper unconditionally (at the top level of its body) checks
+	// the limit too: asArrays(first, second) { ...; v.checkDepth(); return ... }
+	for round := 0; round < 2; round++ {
+		for _, name := range names {
+			if limitHelper[name] || ast.IsExported(name) {
+				continue
+			}
+			for _, st := range ms[name].Body.List {
+				if es, ok := st.(*ast.ExprStmt); ok {
+					if call, ok := es.X.(*ast.CallExpr); ok {
+						if cf := calleeOf(info, call); cf != nil && limitHelper[cf.Name()] && recvNamed(cf) != nil && recvNamed(cf).Origin() == n.Origin() {
+							limitHelper[name] = true
+						}
+					}
+				}
+			}
+		}
+	}
 	steppers := depthSteppers(c, info, ms, depthF)
 	// bracketing helpers: functions that call a function parameter with the counter stepped up
 	// (atNextDepth(collator, func() R) R): what runs inside the literal handed to them runs one level down
@@ -549,12 +568,12 @@ func checkGuardedRecursion(c *Ctx, r *Rec, info *types.Info, n *types.Named, ms 
 		var maxCheck ast.Node
 		var helperChecks []ast.Node // every call of a limit helper (one per dispatcher arm is common)
 		ast.Inspect(fd.Body, func(x ast.Node) bool {
-			if es, ok := x.(*ast.ExprStmt); ok {
-				if call, ok := es.X.(*ast.CallExpr); ok {
-					if cf := calleeOf(info, call); cf != nil && recvNamed(cf) != nil && recvNamed(cf).Origin() == n.Origin() && limitHelper[cf.Name()] {
-						maxCheck = call
-						helperChecks = append(helperChecks, call)
-					}
+			// a call of a limit helper: a statement of its own, or an argument of another call
+			// (compareArrays(v.asArrays(first, second)): evaluated before the call it feeds)
+			if call, ok := x.(*ast.CallExpr); ok {
+				if cf := calleeOf(info, call); cf != nil && recvNamed(cf) != nil && recvNamed(cf).Origin() == n.Origin() && limitHelper[cf.Name()] && cf.Name() != name {
+					maxCheck = call
+					helperChecks = append(helperChecks, call)
 				}
 			}
 			return true
@@ -631,8 +650,8 @@ func checkGuardedRecursion(c *Ctx, r *Rec, info *types.Info, n *types.Named, ms 
 				inc = true
 			}
 			for _, hc := range helperChecks {
-				if g.nodeDominates(hc, node) {
-					chk = true
+				if g.nodeDominates(hc, node) || (hc != node && containsNode(node, hc)) {
+					chk = true // before the call, or among its arguments (evaluated first)
 				}
 			}
 			if maxCheck != nil {
@@ -793,6 +812,11 @@ func checkGuardedRecursion(c *Ctx, r *Rec, info *types.Info, n *types.Named, ms 
 			}
 		}
 		return comp
+	}
+	if os.Getenv("VCHECK_DEBUG_EDGES") != "" {
+		for _, e := range edges {
+			fmt.Fprintf(os.Stderr, "edge %s->%s inc=%v chk=%v %s\n", e.from, e.to, e.inc, e.chk, e.how)
+		}
 	}
 	noInc := sccWithin(func(e edge) bool { return !e.inc })
 	noChk := sccWithin(func(e edge) bool { return !e.chk })
